@@ -128,8 +128,29 @@ func c15Oracle(in c15In) probe.Outcome {
 			}
 			if i == 0 {
 				ak := le.EapTypeData.(*eap.EapAkaPrime)
-				if err := probe.Try(func() error { return ak.SetAttr(eap.AT_MAC, macs[0]) }); err != nil {
-					return probe.Fail("SetAttr(AT_MAC): %v", err)
+				inPlace := false
+				if e.Identifier%2 == 1 {
+					// the sender writes the code into the packet's own AT_MAC storage (the value the getter hands out)
+					if a, gerr := ak.GetAttr(eap.AT_MAC); gerr == nil && len(a.GetValue()) == 16 {
+						copy(a.GetValue(), macs[0])
+						inPlace = true
+						labels = append(labels, "mac-filled-in-place")
+					}
+				}
+				if !inPlace {
+					if err := probe.Try(func() error { return ak.SetAttr(eap.AT_MAC, macs[0]) }); err != nil {
+						return probe.Fail("SetAttr(AT_MAC): %v", err)
+					}
+				}
+				if inPlace {
+					// ... which is that packet's storage only: the same packet built again gets the same code
+					again, err := bridge.ToLibEAP(m)
+					if err != nil {
+						return probe.Fail("building the packet: %v", err)
+					}
+					if m3, err := libCalc(again, in.Key); err != nil || !bytes.Equal(m3, macs[0]) {
+						return probe.Fail("after one packet's AT_MAC value was filled in place, the code computed for an identical, separately built packet is %x, not %x (%v): packets share AT_MAC storage", m3, macs[0], err)
+					}
 				}
 				if err := probe.Try(func() error { var x error; w, x = le.Marshal(); return x }); err != nil {
 					return probe.Fail("Marshal: %v", err)
@@ -203,11 +224,17 @@ func c15Oracle(in c15In) probe.Outcome {
 		return probe.Fail("receiver computes %x for a genuine packet carrying %x (ref-built=%v)\n packet %x", computed, mac, in.RefBuilt, w)
 	}
 	// a receiver that changes the decoded packet (e.g. to build its answer) gets the MAC of the packet as it is then
-	{
+	for variant := 0; variant < 2; variant++ {
 		r := new(eap.EAP)
 		if err := probe.Try(func() error { return r.Unmarshal(probe.Exact(w)) }); err == nil {
 			ak := r.EapTypeData.(*eap.EapAkaPrime)
-			if err := probe.Try(func() error { return ak.SetAttr(eap.AT_KDF, []byte{0x12, 0x34}) }); err == nil {
+			change := func() error { return ak.SetAttr(eap.AT_KDF, []byte{0x12, 0x34}) }
+			if variant == 1 {
+				// the receiver sets an attribute to the very value it already holds (it rebuilds the packet from its own state):
+				// the packet is now the receiver's own and is sent as the library serialises it
+				change = func() error { return ak.SetAttr(eap.AT_MAC, append([]byte(nil), carried...)) }
+			}
+			if err := probe.Try(change); err == nil {
 				m2, err := libCalc(r, in.Key)
 				if err != nil {
 					return probe.Fail("CalcEapAkaPrimeAtMAC on a modified decoded packet: %v", err)
